@@ -164,7 +164,7 @@ theorem step_ghosts (f : Sem) (j : Job) (cl : Cluster) (s s' : Sys) (st : Step) 
   | env es =>
     simp only [step] at hs
     split at hs; · cases hs
-    cases he : envStep f j s.env es with
+    cases he : envStepP f j s.env es with
     | none => simp [he] at hs
     | some e => simp only [he, Option.map_some, Option.some.injEq] at hs; subst hs; exact same _ _ rfl rfl rfl
 
